@@ -25,7 +25,8 @@ ALLOWED_PURE = {
     "strlen", "memcpy", "strcpy", "strchr", "abs", "__errno_location", "__xpg_strerror_r", "strerror_r",
     "stdin", "stdout", "stderr", "environ", "_GLOBAL_OFFSET_TABLE_", "memset", "memmove", "strcmp", "strncmp",
     "memcmp", "strncpy", "strnlen", "strrchr", "__stack_chk_fail", "__assert_fail", "sigaddset", "sigdelset",
-    "sigismember", "__tls_get_addr", "strerror", "__errno", "snprintf", "getenv",
+    "sigismember", "__tls_get_addr", "strerror", "__errno", "snprintf", "getenv", "strtol", "strtoul", "strtoll", "atoi", "atol",
+    "__ctype_b_loc", "qsort", "bsearch", "memchr", "strstr", "strcat", "strncat", "sprintf", "strcspn", "strspn", "strpbrk", "__isoc99_sscanf",
 }
 
 
